@@ -1,6 +1,461 @@
-"""Loop rule: cut at a contract-supplied invariant (DESIGN 2.4)."""
+"""Loop rules (DESIGN 2.4).
+
+* invariant rule: `while` / `for` over a symbolic sequence or range is cut at a contract-supplied
+  inductive invariant: assert on entry, havoc what the body assigns (computed from the AST),
+  assume the invariant, run the body once, assert the invariant at the back edge.
+* fold rule: for `for x in seq` a ghost prefix `_pre` (with `_pre' = _pre ++ [x]`) and index `_i`
+  are maintained; spec folds named by the loop contract are unfolded at (_pre, x) only.
+* for-each rule: loops over the values of a symbolic map / collection whose iterations are
+  independent: the body runs on every materialised element and once on an arbitrary element of
+  the rest; independence (no shared state written) is checked.
+* loops over concrete containers are executed exactly by the interpreter itself.
+"""
 from __future__ import annotations
+
+import ast
+
+import z3
+
+from . import smap
+from .calls import SymRange
+from .contracts import eval_clause
+from .ctx import PathEnd, Unsupported
+from .interp import BreakSig, ContinueSig, Env, PyRaise, ReturnSig, _z, bv2int, int_term
+from .snapshot import snapshot
+from .values import ByteSeq, Opaque, OpaqueSort, SBool, SBytes, SEnum, SFuture, SInt, SObj, SOpt, SReal
+
+MUTATORS = {"append", "extend", "pop", "clear", "add", "discard", "remove", "update", "insert", "setdefault"}
+
+
+def loops_of(fnode):
+    """Loops of the function in source order (nested function bodies excluded)."""
+    out = []
+
+    class V(ast.NodeVisitor):
+        def visit_FunctionDef(self, n):
+            if n is fnode:
+                self.generic_visit(n)
+
+        visit_AsyncFunctionDef = visit_FunctionDef
+
+        def visit_Lambda(self, n):
+            pass
+
+        def visit_For(self, n):
+            out.append(n)
+            self.generic_visit(n)
+
+        visit_While = visit_For
+        visit_AsyncFor = visit_For
+
+    V().visit(fnode)
+    return out
+
+
+def assigned_in(body_nodes):
+    """(local names, self fields, calls self methods?) assigned / mutated in the loop body."""
+    names, fields, self_calls = set(), set(), set()
+
+    class V(ast.NodeVisitor):
+        def visit_FunctionDef(self, n):
+            names.add(n.name)
+
+        visit_AsyncFunctionDef = visit_FunctionDef
+
+        def visit_Lambda(self, n):
+            pass
+
+        def visit_Name(self, n):
+            if isinstance(n.ctx, (ast.Store, ast.Del)):
+                names.add(n.id)
+
+        def visit_Attribute(self, n):
+            if isinstance(n.ctx, ast.Store) and isinstance(n.value, ast.Name) and n.value.id == "self":
+                fields.add(n.attr)
+            self.generic_visit(n)
+
+        def visit_AugAssign(self, n):
+            t = n.target
+            if isinstance(t, ast.Name):
+                names.add(t.id)
+            elif isinstance(t, ast.Attribute) and isinstance(t.value, ast.Name) and t.value.id == "self":
+                fields.add(t.attr)
+            self.generic_visit(n)
+
+        def visit_Call(self, n):
+            f = n.func
+            if isinstance(f, ast.Attribute):
+                if f.attr in MUTATORS:
+                    if isinstance(f.value, ast.Name):
+                        names.add(f.value.id)
+                    elif isinstance(f.value, ast.Attribute) and isinstance(f.value.value, ast.Name) and f.value.value.id == "self":
+                        fields.add(f.value.attr)
+                if isinstance(f.value, ast.Name) and f.value.id == "self":
+                    self_calls.add(f.attr)
+            self.generic_visit(n)
+
+        def visit_Subscript(self, n):
+            if isinstance(n.ctx, ast.Store):
+                v = n.value
+                if isinstance(v, ast.Name):
+                    names.add(v.id)
+                elif isinstance(v, ast.Attribute) and isinstance(v.value, ast.Name) and v.value.id == "self":
+                    fields.add(v.attr)
+            self.generic_visit(n)
+
+    for b in body_nodes:
+        V().visit(b)
+    return names, fields, self_calls
+
+
+def havoc_like(I, v, name):
+    """Fresh value of the same kind as v."""
+    c = I.ctx
+    if isinstance(v, bool) or isinstance(v, SBool):
+        return SBool(c.fresh_bool(name))
+    if isinstance(v, SEnum):
+        from .contracts import EnumT
+
+        return EnumT(v.cls).fresh(I, name)
+    if isinstance(v, SInt) or (isinstance(v, int) and not isinstance(v, bool)):
+        return SInt(c.fresh_int(name))
+    if isinstance(v, (SReal, float)):
+        return SReal(c.fresh_real(name))
+    if isinstance(v, SBytes):
+        return SBytes(c.fresh_const(name, ByteSeq), v.mutable)
+    if isinstance(v, (bytes, bytearray)):
+        return SBytes(c.fresh_const(name, ByteSeq), isinstance(v, bytearray))
+    if v is None:
+        raise Unsupported(f"loop havoc of '{name}' (None before the loop): declare its type in the loop contract")
+    if isinstance(v, Opaque):
+        return Opaque(c.fresh_const(name, OpaqueSort), v.kind)
+    raise Unsupported(f"loop havoc of '{name}' of kind {type(v).__name__}: declare its type in the loop contract")
+
+
+class LoopCtl:
+    def __init__(self, I, con, fnode, bindings):
+        self.I, self.con, self.fnode, self.bindings = I, con, fnode, bindings
+        self.loops = loops_of(fnode)
+
+    def ordinal(self, node):
+        for i, n in enumerate(self.loops):
+            if n is node:
+                return i
+        return None
+
+    def handle(self, I, node, env):
+        k = self.ordinal(node)
+        spec = self.con.loops.get(k) if k is not None else None
+        if isinstance(node, ast.For):
+            it = I.eval(node.iter, env)
+            if isinstance(it, smap.View) or isinstance(it, smap.SColl):
+                foreach(I, self, node, env, it, k)
+                return None
+            symbolic = (isinstance(it, SBytes) and not z3.is_int_value(z3.simplify(z3.Length(it.t)))) or isinstance(it, SymRange)
+            if not symbolic:
+                return run_concrete_for(I, node, env, it)
+            if spec is None:
+                raise Unsupported(f"loop #{k} of {self.con.qualname} iterates a symbolic sequence and has no loop contract")
+            return invariant_for(I, self, node, env, it, k, spec)
+        if isinstance(node, ast.While):
+            if spec is None:
+                return NotImplemented
+            return invariant_while(I, self, node, env, k, spec)
+        return NotImplemented
+
+
+def run_concrete_for(I, node, env, it):
+    items = I.iterate_concrete(it)
+    for item in items:
+        I.assign_target(node.target, item, env)
+        try:
+            I.exec_block(node.body, env)
+        except BreakSig:
+            return None
+        except ContinueSig:
+            continue
+    I.exec_block(node.orelse, env)
+    return None
 
 
 def install(I, con, node, bindings):
-    I.loop_handler = None
+    ctl = LoopCtl(I, con, node, bindings)
+    I.loop_handler = ctl.handle
+
+
+# ---------------------------------------------------------------------------
+def _inv_bindings(I, ctl, env, extra):
+    b = dict(ctl.bindings)
+    e = env
+    chain = []
+    while e is not None:
+        chain.append(e.vars)
+        e = e.parent
+    for vars_ in reversed(chain):
+        b.update(vars_)
+    b.update(extra)
+    return b
+
+
+def _check_invs(I, ctl, spec, k, env, extra, stage):
+    qn = ctl.con.qualname
+    b = _inv_bindings(I, ctl, env, extra)
+    for iid, lam in spec.invariants:
+        f = eval_clause(I, lam, _select(lam, b), old_view=ctl.old_view())
+        I.ctx.check_obligation(f"{qn}::loop{k}.{iid}.{stage}", f)
+
+
+def _assume_invs(I, ctl, spec, env, extra):
+    b = _inv_bindings(I, ctl, env, extra)
+    for iid, lam in spec.invariants:
+        f = eval_clause(I, lam, _select(lam, b), old_view=ctl.old_view())
+        I.ctx.assume(_z(f))
+
+
+def _select(lam, b):
+    code = lam.__code__
+    names = code.co_varnames[: code.co_argcount + code.co_kwonlyargcount]
+    missing = [n for n in names if n not in b and n != "old"]
+    if missing:
+        raise Unsupported(f"loop invariant refers to unknown names {missing}")
+    return {n: b[n] for n in names if n in b}
+
+
+def _old_view(ctl):
+    return getattr(ctl.I, "entry_old_view", None)
+
+
+LoopCtl.old_view = _old_view
+
+
+def _havoc(I, ctl, node, env, spec, k):
+    names, fields, self_calls = assigned_in(node.body + getattr(node, "orelse", []))
+    if isinstance(node, ast.For):
+        for n in ast.walk(node.target):
+            if isinstance(n, ast.Name):
+                names.discard(n.id)
+    self_obj = ctl.bindings.get("self")
+    if self_calls and self_obj is not None and ctl.con.self_spec is not None:
+        from .contracts import REGISTRY
+
+        cls = self_obj.cls
+        for m in self_calls:
+            qn = None
+            for klass in cls.__mro__:
+                if m in klass.__dict__:
+                    qn = f"{klass.__module__}.{klass.__qualname__}.{m}"
+                    break
+            con = REGISTRY.contracts.get(qn) if qn else None
+            if con is None or con.modifies_ is None:
+                fields |= set(ctl.con.self_spec.fields)
+            else:
+                fields |= {p.split(".", 1)[1] for p in con.modifies_ if p.startswith("self.")}
+    declared = spec.ghost.get("types", {}) if spec.ghost else {}
+    for n in sorted(names):
+        if n in declared:
+            env.assign(n, declared[n].fresh(I, f"{n}@loop{k}"))
+            continue
+        try:
+            cur = env.lookup(n)
+        except KeyError:
+            continue  # first assigned inside the loop: no value flows around the back edge unless read
+        env.assign(n, havoc_like(I, cur, f"{n}@loop{k}"))
+    if self_obj is not None and ctl.con.self_spec is not None:
+        for f in sorted(fields):
+            ty = ctl.con.self_spec.fields.get(f)
+            if ty is None:
+                raise Unsupported(f"loop assigns unknown field self.{f}")
+            self_obj.fields[f] = ty.fresh(I, f"self.{f}@loop{k}")
+    # effects inside proof-mode loops are summarised by ghost state named in the invariant
+    I.ctx.fx.append(("loop.summary", k))
+
+
+def invariant_while(I, ctl, node, env, k, spec):
+    _check_invs(I, ctl, spec, k, env, {}, "entry")
+    _havoc(I, ctl, node, env, spec, k)
+    _assume_invs(I, ctl, spec, env, {})
+    variant0 = None
+    if spec.variant is not None:
+        b = _inv_bindings(I, ctl, env, {})
+        from .modular import _eval_value
+
+        variant0 = _eval_value(I, spec.variant, b)
+    if I.truth(I.eval(node.test, env)):
+        try:
+            I.exec_block(node.body, env)
+        except BreakSig:
+            return None
+        except ContinueSig:
+            pass
+        _check_invs(I, ctl, spec, k, env, {}, "preserved")
+        if spec.variant is not None:
+            from .modular import _eval_value
+
+            v1 = _eval_value(I, spec.variant, _inv_bindings(I, ctl, env, {}))
+            I.ctx.check_obligation(
+                f"{ctl.con.qualname}::loop{k}.variant.decreases",
+                z3.And(int_term(v1) < int_term(variant0), int_term(variant0) >= 0),
+            )
+        raise PathEnd()
+    I.exec_block(node.orelse, env)
+    return None
+
+
+def invariant_for(I, ctl, node, env, it, k, spec):
+    c = I.ctx
+    if isinstance(it, SBytes):
+        seq = it.t
+        n = z3.Length(seq)
+        ghosts0 = {"_i": SInt(z3.IntVal(0)), "_pre": SBytes(z3.Empty(ByteSeq)), "_seq": SBytes(seq)}
+        _check_invs(I, ctl, spec, k, env, ghosts0, "entry")
+        _havoc(I, ctl, node, env, spec, k)
+        pre = c.fresh_const(f"pre@loop{k}", ByteSeq)
+        rest = c.fresh_const(f"rest@loop{k}", ByteSeq)
+        c.assume(seq == z3.Concat(pre, rest))
+        i = z3.Length(pre)
+        ghosts = {"_i": SInt(i), "_pre": SBytes(pre), "_seq": SBytes(seq)}
+        _assume_invs(I, ctl, spec, env, ghosts)
+        _unfold(I, spec, pre, None)
+        if c.branch(z3.Length(rest) > 0):
+            x = c.fresh_const(f"x@loop{k}", z3.BitVecSort(8))
+            rest2 = c.fresh_const(f"rest2@loop{k}", ByteSeq)
+            c.assume(rest == z3.Concat(z3.Unit(x), rest2))
+            I.assign_target(node.target, SInt(bv2int(x)), env)
+            _unfold(I, spec, pre, x)
+            try:
+                I.exec_block(node.body, env)
+            except BreakSig:
+                return None
+            except ContinueSig:
+                pass
+            pre2 = z3.Concat(pre, z3.Unit(x))
+            ghosts2 = {"_i": SInt(i + 1), "_pre": SBytes(pre2), "_seq": SBytes(seq)}
+            _check_invs(I, ctl, spec, k, env, ghosts2, "preserved")
+            raise PathEnd()
+        c.assume(pre == seq)
+        I.exec_block(node.orelse, env)
+        return None
+    if isinstance(it, SymRange):
+        if it.step != 1:
+            raise Unsupported("symbolic range with step")
+        lo, hi = int_term(it.start), int_term(it.stop)
+        ghosts0 = {"_i": SInt(lo)}
+        _check_invs(I, ctl, spec, k, env, ghosts0, "entry")
+        _havoc(I, ctl, node, env, spec, k)
+        i = c.fresh_int(f"i@loop{k}")
+        c.assume(z3.And(i >= lo, z3.Or(i <= hi, hi < lo)))
+        ghosts = {"_i": SInt(i)}
+        _assume_invs(I, ctl, spec, env, ghosts)
+        if c.branch(i < hi):
+            I.assign_target(node.target, SInt(i), env)
+            try:
+                I.exec_block(node.body, env)
+            except BreakSig:
+                return None
+            except ContinueSig:
+                pass
+            _check_invs(I, ctl, spec, k, env, {"_i": SInt(i + 1)}, "preserved")
+            raise PathEnd()
+        c.assume(z3.Or(i == hi, z3.And(hi < lo, i == lo)))
+        I.exec_block(node.orelse, env)
+        return None
+    raise Unsupported("invariant rule on this iterable")
+
+
+def _unfold(I, spec, pre, x):
+    for fold in spec.fold or []:
+        for ax in fold.unfold_at(pre, x):
+            I.ctx.assume(ax)
+
+
+# ---------------------------------------------------------------------------
+# for-each rule
+# ---------------------------------------------------------------------------
+def foreach(I, ctl, node, env, it, k):
+    c = I.ctx
+    if isinstance(it, smap.View):
+        m = it.m
+        elements = []
+        for s in m.slots:
+            elements.append((z3.Select(m.has, s.key), s, None))
+        kind = it.kind
+    else:
+        m = it
+        elements = [(p, None, v) for p, v in it.members]
+        kind = "values"
+    # arbitrary element of the rest
+    order = c.choose(2, "rest element first/last") if elements else 0
+    if order == 1:
+        m.order_hint = "rest-first"
+
+    def item_of(slot, value, key=None):
+        if kind == "values":
+            return value
+        if kind == "keys":
+            return SInt(key)
+        return (SInt(key), value)
+
+    def run_rest():
+        if isinstance(m, smap.SMap):
+            which = c.choose(2, "rest empty / arbitrary rest element")
+            if which == 0:
+                return True
+            kt = c.fresh_int(f"{m.name}.anykey")
+            for s in m.slots:
+                c.assume(s.key != kt)
+            c.assume(z3.Select(m.has, kt))
+            s = smap.find_slot(I, m, kt)
+            item = item_of(s, s.value, kt)
+        else:
+            if m.rest_nonempty is None or z3.is_false(z3.simplify(_z(m.rest_nonempty))):
+                return True
+            which = c.choose(2, "rest empty / arbitrary rest element")
+            if which == 0:
+                return True
+            v = m.etype.fresh(I, f"{m.name}.any")
+            m.members.append([True, v])
+            from .snapshot import clone_graph
+
+            m.entry_members.append(clone_graph({"v": v})["v"])
+            item = v
+        self_obj = ctl.bindings.get("self")
+        before = dict(self_obj.fields) if isinstance(self_obj, SObj) else {}
+        cont = run_body(item)
+        # independence: the generic iteration must not write shared object state
+        if isinstance(self_obj, SObj):
+            for f, v0 in before.items():
+                v1 = self_obj.fields.get(f)
+                if v1 is not v0:
+                    if not c.prove(_z(I.eq(v0, v1))):
+                        raise Unsupported(f"for-each body writes shared field self.{f}: needs an invariant")
+        return cont
+
+    def run_body(item):
+        I.assign_target(node.target, item, env)
+        try:
+            I.exec_block(node.body, env)
+        except BreakSig:
+            return False
+        except ContinueSig:
+            pass
+        return True
+
+    cont = True
+    if order == 1 or not elements:
+        cont = run_rest()
+        if not cont:
+            return
+    for pres, slot, value in elements:
+        if isinstance(pres, bool):
+            here = pres
+        else:
+            here = c.branch(pres)
+        if not here:
+            continue
+        item = item_of(slot, slot.value if slot is not None else value, slot.key if slot is not None else None)
+        if not run_body(item):
+            return
+    if order == 0 and elements:
+        if not run_rest():
+            return
+    I.exec_block(node.orelse, env)
